@@ -191,6 +191,74 @@ func genJSONWriter() {
 	sb.WriteString("/-- other calls in `LogResults` that are handed the sink `l.w` -/\n")
 	sb.WriteString("def logResultsOtherSinkUses : List String := " + leanStrList(otherSinkUses) + "\n\n")
 	sb.WriteString(fmt.Sprintf("/-- select statements in `LogResults` -/\ndef logResultsSelects : Nat := %d\n\n", selects))
+
+	// ---- the error sink: how NewLogger builds the zap logger, what (*logger).Error does with it
+	lgf := parseFile("command/log/logger.go")
+	ctorCall, ctorArgs, confSrc := "", -1, ""
+	var confAssigns [][2]string
+	zapVar := ""
+	if fd := findFunc(lgf, "", "NewLogger"); fd == nil {
+		problem("NewLogger: not found")
+	} else {
+		confVar := ""
+		ast.Inspect(fd.Body, func(n ast.Node) bool {
+			as, ok := n.(*ast.AssignStmt)
+			if !ok {
+				return true
+			}
+			if len(as.Rhs) == 1 {
+				if c, ok := as.Rhs[0].(*ast.CallExpr); ok {
+					if strings.HasPrefix(src(c.Fun), "zap.New") && strings.HasSuffix(src(c.Fun), "Config") && len(as.Lhs) == 1 {
+						confVar, confSrc = src(as.Lhs[0]), src(c)
+					} else if len(as.Lhs) == 2 && src(as.Lhs[1]) == "err" && (strings.HasPrefix(src(c.Fun), "zap.") || confVar != "" && strings.HasPrefix(src(c.Fun), confVar+".")) {
+						zapVar, ctorCall, ctorArgs = src(as.Lhs[0]), strings.Replace(src(c.Fun), confVar+".", "conf.", 1), len(c.Args)
+					} else if strings.HasPrefix(src(c.Fun), "zap.New") && len(as.Lhs) == 1 {
+						zapVar, ctorCall, ctorArgs = src(as.Lhs[0]), src(c.Fun), len(c.Args)
+					}
+				}
+			}
+			for i, l := range as.Lhs {
+				if confVar != "" && strings.HasPrefix(src(l), confVar+".") && i < len(as.Rhs) {
+					confAssigns = append(confAssigns, [2]string{strings.TrimPrefix(src(l), confVar+"."), src(as.Rhs[i])})
+				}
+			}
+			return true
+		})
+		// the logger struct gets exactly that value
+		stored := false
+		ast.Inspect(fd.Body, func(n ast.Node) bool {
+			if kv, ok := n.(*ast.KeyValueExpr); ok && src(kv.Key) == "zapl" && src(kv.Value) == zapVar && zapVar != "" {
+				stored = true
+			}
+			return true
+		})
+		if !stored {
+			problem("NewLogger: the zap logger it builds (%q) is not what it stores in logger.zapl", zapVar)
+		}
+	}
+	var errCalls []string
+	if fd := findFunc(lgf, "logger", "Error"); fd == nil {
+		problem("logger.Error: not found")
+	} else {
+		for _, st := range fd.Body.List {
+			errCalls = append(errCalls, src(st))
+		}
+	}
+	var defers []string
+	if fd := findFunc(lgf, "logger", "LogResults"); fd != nil {
+		ast.Inspect(fd.Body, func(n ast.Node) bool {
+			if d, ok := n.(*ast.DeferStmt); ok {
+				defers = append(defers, src(d.Call))
+			}
+			return true
+		})
+	}
+	sb.WriteString("/-- `NewLogger`: the configuration the zap (error) logger is built from, the assignments to its fields, the call that builds it and its number of arguments (options) -/\n")
+	sb.WriteString("def errorLoggerConfig : String := " + leanStr(confSrc) + "\n")
+	sb.WriteString("def errorLoggerConfAssigns : List (String × String) := " + leanPairs(confAssigns) + "\n")
+	sb.WriteString(fmt.Sprintf("def errorLoggerCtor : String × Int := (%s, %d)\n\n", leanStr(ctorCall), ctorArgs))
+	sb.WriteString("/-- the statements of `(*logger).Error` -/\ndef loggerErrorBody : List String := " + leanStrList(errCalls) + "\n\n")
+	sb.WriteString("/-- the deferred calls of `(*logger).LogResults` -/\ndef logResultsDefers : List String := " + leanStrList(defers) + "\n\n")
 	all["json.logResultsWriteCalls"] = fmt.Sprint(wcalls)
 	all["json.logResultsOtherSinkUses"] = otherSinkUses
 
